@@ -512,15 +512,19 @@ pub fn run(ctx: &mut Ctx) {
         len: usize,
         rot: usize,
     }
-    let cases: Vec<BitsCase> = (0..=9usize).flat_map(|len| (0..8usize).map(move |rot| BitsCase { len, rot })).collect();
+    let cases: Vec<BitsCase> = (0..=9usize).flat_map(|len| (0..32usize).map(move |rot| BitsCase { len, rot })).collect();
     ctx.enumerate("ops/write-copies-every-bit-pattern", true, cases.into_iter(), |c: &BitsCase, st: &mut Stats| {
         st.nt(c.len > 0);
-        const P32: [u32; 8] = [0x7fc0_0000, 0xffc0_0001, 0x7f80_0000, 0xff80_0000, 0x8000_0000, 0x0000_0001, 0x7fa0_1234, 0x3f80_0000];
-        const P64: [u64; 8] = [0x7ff8_0000_0000_0000, 0xfff8_0000_0000_0001, 0x7ff0_0000_0000_0000, 0xfff0_0000_0000_0000, 0x8000_0000_0000_0000, 1, 0x7ff4_0000_0000_1234, 0x3ff0_0000_0000_0000];
-        let b32: Vec<[f32; 2]> = (0..c.len).map(|i| [f32::from_bits(P32[(i + c.rot) % 8]), f32::from_bits(P32[(i * 3 + c.rot + 1) % 8])]).collect();
+        const P32: [u32; 8] = [0x7fc0_0000, 0xffc0_0001, 0x7f80_0000, 0xff80_0000, 0x8000_0000, 0x0000_0001, 0x7fa0_1234, 0x0000_0000];
+        const P64: [u64; 8] = [0x7ff8_0000_0000_0000, 0xfff8_0000_0000_0001, 0x7ff0_0000_0000_0000, 0xfff0_0000_0000_0000, 0x8000_0000_0000_0000, 1, 0x7ff4_0000_0000_1234, 0];
+        let b32: Vec<[f32; 2]> = (0..c.len).map(|i| [f32::from_bits(P32[(i + c.rot) % 8]), f32::from_bits(P32[(i + c.rot + 1) % 8])]).collect();
         let m32: Vec<f32> = (0..c.len).map(|i| f32::from_bits(P32[(i + c.rot) % 8])).collect();
         let b64: Vec<[f64; 4]> = (0..c.len).map(|i| core::array::from_fn(|ch| f64::from_bits(P64[(i + ch + c.rot) % 8]))).collect();
-        let (mut a32, mut am, mut a64) = (vec![[0.25f32, -0.5]; c.len], vec![0.75f32; c.len], vec![[0.125f64; 4]; c.len]);
+        // the destination holds, in turn, ordinary values, +0.0 and -0.0 (a copy that is skipped when source and destination
+        // compare equal would leave the wrong zero) and the source's own pattern shifted by one
+        let d32 = |i: usize| -> f32 { [0.25f32, 0.0, -0.0, f32::from_bits(P32[(i + c.rot + 1) % 8])][(i + c.rot / 8) % 4] };
+        let d64 = |i: usize| -> f64 { [0.125f64, -0.0, 0.0, f64::from_bits(P64[(i + c.rot + 1) % 8])][(i + c.rot / 8) % 4] };
+        let (mut a32, mut am, mut a64): (Vec<[f32; 2]>, Vec<f32>, Vec<[f64; 4]>) = ((0..c.len).map(|i| [d32(i), d32(i + 1)]).collect(), (0..c.len).map(|i| d32(i)).collect(), (0..c.len).map(|i| core::array::from_fn(|ch| d64(i + ch))).collect());
         ds::write(&mut a32[..], &b32[..]);
         ds::write(&mut am[..], &m32[..]);
         ds::write(&mut a64[..], &b64[..]);
